@@ -545,7 +545,7 @@ class Collection(object):
             # Rollback
             del self._store[object_id]
             raise
-        return data['_id']
+        return _copy_field(data['_id'], dict)
 
     def _ensure_uniques(self, new_data):
         # Note we consider new_data is already inserted in db
@@ -1111,7 +1111,7 @@ class Collection(object):
             if field not in doc_copy:
                 if field in doc:
                     # field was not copied yet (since we are in include mode)
-                    doc_copy[field] = doc[field]
+                    doc_copy[field] = _copy_field(doc[field], dict)
                 else:
                     # field doesn't exist in original document, no work to do
                     continue
@@ -1179,6 +1179,9 @@ class Collection(object):
             fields = {'_id': 1}
         if not isinstance(fields, dict):
             fields = helpers.fields_list_to_dict(fields)
+        else:
+            # work on a copy: the caller's projection is not ours to edit
+            fields = dict(fields)
 
         # we can pass in something like {'_id':0, 'field':1}, so pull the id
         # value out and hang on to it until later
@@ -1211,7 +1214,7 @@ class Collection(object):
             doc_copy.pop('_id', None)
         else:
             if '_id' in doc:
-                doc_copy['_id'] = doc['_id']
+                doc_copy['_id'] = _copy_field(doc['_id'], container)
 
         fields['_id'] = id_value  # put _id back in fields
 
